@@ -152,6 +152,8 @@ var hDocs = []hDoc{
 	{`{ me { name(bogus: 1) } }`, "", "", ""},
 	{`query ($x: Int) { me { name } }`, "", "", ""},
 	{`{ me { name @nope } }`, "", "", ""},
+	// a variable of a type the schema does not have (the validator refuses it; coercing its value would dereference a nil definition)
+	{`query($x: NoSuchType) { me { name } }`, "", "", ""},
 	{``, "", "", ""}, // no query at all (kept last)
 }
 
@@ -493,7 +495,8 @@ func Setup_C09_sequence() { Setup_C09_http() }
 // operation it names itself (or is refused), for POST and GET.
 func Harness_C09_sequence() {
 	es := &hES{}
-	srv := hServer(es, nil)
+	// under C10 the recover hook must stay silent: none of these requests makes user code panic
+	srv := hServer(es, nil, zzsym.Param("norecover", 0) == 1)
 	mk := func(d hDoc, get bool) *http.Request {
 		r := &http.Request{Header: http.Header{}, URL: &url.URL{Path: "/query"}}
 		if get {
